@@ -521,7 +521,7 @@ func (oc *obligCtx) enumerate(fn *ssa.Function, kinds map[string]bool) []Obligat
 					if len(args) > 1 {
 						t := args[1]
 						desc := "NewRuntimeError:" + exprString(t, 0)
-						if nonNilError(t, fn, 0) {
+						if nonNilError(t, fn, 0) || oc.paramErrNonNil(t, fn) {
 							add("nilerrtype", in, desc, true, "the error type is a package-level error value, a fresh error or a forwarded parameter whose call sites are obligations themselves")
 						} else if FactsAt(in).NonNil[accessPath(t)] {
 							add("nilerrtype", in, desc, true, "dominated by a non-nil test of the error type")
@@ -1555,6 +1555,40 @@ func hashableOnAllPaths(in ssa.Instruction, key ssa.Value) bool {
 // nonNilError: the value is certainly a non-nil error: a package-level error variable, a
 // fresh error (fmt.Errorf, errors.New, a composite), a phi of such, or a parameter of the
 // forwarding constructor (its callers are checked at their own call sites).
+// paramErrNonNil: v is a parameter of an unexported module function and every call site passes a
+// non-nil error value for it (a helper that builds the runtime error from its arguments).
+func (oc *obligCtx) paramErrNonNil(v ssa.Value, fn *ssa.Function) bool {
+	p, ok := stripConvKeepIface(unspill(v)).(*ssa.Parameter)
+	if !ok || p.Parent() != fn || fn.Parent() != nil {
+		return false
+	}
+	if o := fn.Object(); o == nil || o.Exported() {
+		return false
+	}
+	idx := paramIndex(fn, p)
+	n := oc.c.CHA().Nodes[fn]
+	if n == nil || idx < 0 {
+		return false
+	}
+	sites := 0
+	for _, e := range n.In {
+		if e.Site == nil || e.Site.Common().StaticCallee() != fn {
+			if e.Caller.Func.Synthetic != "" {
+				if wn := oc.c.CHA().Nodes[e.Caller.Func]; wn == nil || len(wn.In) == 0 {
+					continue
+				}
+			}
+			return false
+		}
+		args := callArgs(e.Site.Common())
+		if idx >= len(args) || !nonNilError(args[idx], e.Caller.Func, 0) {
+			return false
+		}
+		sites++
+	}
+	return sites > 0
+}
+
 func nonNilError(v ssa.Value, fn *ssa.Function, d int) bool {
 	if d > 6 {
 		return false
